@@ -196,7 +196,11 @@ def fam_slice_top(k):
     # unsized data element, so that the static size analysis sees it too
     n = pow2(k) - 1
     lo = max(0, n - 15)
-    return {"main.asm": "#d (0xab)[%d:%d]\n#d8 0x5a\n" % (n, lo)}, ("either", None)
+    width = n - lo + 1
+    value = (0xab >> lo) & ((1 << width) - 1) if lo < 64 else 0
+    want = format((value << 8) | 0x5a, "0%db" % (width + 8))
+    want = "%0*x" % ((len(want) + 3) // 4, int(want + "0" * (-len(want) % 4), 2))
+    return {"main.asm": "#d (0xab)[%d:%d]\n#d8 0x5a\n" % (n, lo)}, ("either", want)
 
 
 def fam_slice_both(k):
